@@ -83,6 +83,13 @@ func familyC16(thorough bool) []*scen.Cell {
 						{Notations: scen.Toggles(0, getter, 0, tcast, 0), Sig: "Conv(*S) *D"},
 						{Notations: append([]string{":style arg"}, scen.Toggles(0, getter, 0, tcast, 0)...), Sig: "Fill(*S) *D"},
 						{Notations: append([]string{":style arg", ":reverse"}, scen.Toggles(0, getter, 0, tcast, 0)...), Sig: "Back(*D) *S"},
+						// round 5: siblings of the SAME interface over the same type pair with the OPPOSITE :typecast setting, one sorting
+						// before and one after the methods under test (a decision remembered per type pair must not travel between methods) ...
+						{Notations: scen.Toggles(0, getter, 0, 1-tcast, 0), Sig: "Aopp(*S) *D"},
+						{Notations: scen.Toggles(0, getter, 0, 1-tcast, 0), Sig: "Zopp(*S) *D"},
+						// ... and operands that carry the names the copy loops like to use
+						{Notations: scen.Toggles(0, getter, 0, tcast, 0), Sig: "Loopnames(i *S) (e *D)"},
+						{Notations: append([]string{":style arg"}, scen.Toggles(0, getter, 0, tcast, 0)...), Sig: "Loopargs(e *S) (i *D)"},
 					})
 					cells = append(cells, &scen.Cell{
 						ID:     fmt.Sprintf("c16_%s_%s_%d_%d_%d", es.id, ed.id, named, tcast, getter),
